@@ -135,15 +135,50 @@ def concretise(inputs, vals):
 
 
 # ------------------------------------------------------------------------------------------------ native side
+class _NativeTimeout(BaseException):
+    pass
+
+
+class _time_limit:
+    """wall-clock limit for one call of the real function (a mutated or defective loop may not terminate)"""
+
+    def __init__(self, seconds):
+        self.seconds = seconds
+
+    def __enter__(self):
+        import signal
+        import threading
+
+        self.active = threading.current_thread() is threading.main_thread()
+        if self.active:
+            def handler(signum, frame):
+                raise _NativeTimeout()
+
+            self.old = signal.signal(signal.SIGALRM, handler)
+            signal.setitimer(signal.ITIMER_REAL, self.seconds)
+        return self
+
+    def __exit__(self, *a):
+        import signal
+
+        if self.active:
+            signal.setitimer(signal.ITIMER_REAL, 0)
+            signal.signal(signal.SIGALRM, self.old)
+        return False
+
+
 def run_real(src, args):
     """run the real function object; returns ("return", abstract value) | ("raise", name)"""
     mod = src.module
     real = [realize(a, mod) for a in args]
     try:
-        if src.is_property:
-            r = src.pyobj(real[0])
-        else:
-            r = src.pyobj(*real)
+        with _time_limit(2.0):
+            if src.is_property:
+                r = src.pyobj(real[0])
+            else:
+                r = src.pyobj(*real)
+    except _NativeTimeout:
+        return ("raise", "DoesNotTerminate(2s)")
     except Exception as e:
         return ("raise", type(e).__name__)
     return ("return", abstract(r, mod))
@@ -224,6 +259,21 @@ def feasible(pc):
     return s.check() != z3.unsat
 
 
+def _guarded_check(s, timeout_ms):
+    """z3's own timeout is not honoured in every phase; a watchdog interrupts the context after a grace period"""
+    import threading
+
+    tm = threading.Timer(timeout_ms / 1000.0 * 1.25 + 2.0, s.ctx.interrupt)
+    tm.daemon = True
+    tm.start()
+    try:
+        return s.check()
+    except z3.Z3Exception:
+        return z3.unknown
+    finally:
+        tm.cancel()
+
+
 def _conjuncts(g):
     if z3.is_and(g):
         out = []
@@ -246,7 +296,7 @@ def solve_vc(vc, axioms, timeout_ms, use_cvc5=False):
         for h in vc.hyps:
             s.add(h if isinstance(h, z3.ExprRef) else z3.BoolVal(bool(h)))
         s.add(z3.Not(cj))
-        r = s.check()
+        r = _guarded_check(s, timeout_ms)
         if r == z3.unsat:
             continue
         where = f"conjunct {i}: {str(cj)[:160]}"
